@@ -11,7 +11,7 @@ import json
 import logging
 from typing import Any, Optional
 
-from vlib.core import cfg as _cfg, path_tick
+from vlib.core import cfg as _cfg, path_tick, untraced
 from vlib import modelstore as M, sqlvalidate as V
 
 from tel2puml.otel_to_pv.data_holders.sql_data_holder import sql_dataholder as sdh
@@ -114,6 +114,91 @@ def run_real(c: dict[str, Any], tr: list[int], lab: list[int], star: list[int]) 
     return judge(rows, got)
 
 
+# ---- Q4: the store changes between two unique-graph runs (new files ingested, old traces cleaned away) ----
+MIN = 60 * 10**9
+T0 = 1_700_000_000 * 10**9
+
+
+def _ev(job: str, eid: str, typ: str, minute_x10: int, parent: Optional[str], name: str = "wf") -> Any:
+    from tel2puml.otel_to_pv.otel_to_pv_types import OTelEvent
+    s = T0 + minute_x10 * (MIN // 10)
+    return OTelEvent.model_construct(job_name=name, job_id=job, event_type=typ, event_id=eid, start_timestamp=s,
+                                     end_timestamp=s + MIN // 20, application_name="app", parent_event_id=parent, child_event_ids=None)
+
+
+def history_data(keep: list[Any]) -> tuple[list[Any], list[Any]]:
+    """first files: anchors + three traces, each either inside (keep) or before the window of the second run;
+    second files: anchors + two traces"""
+    a = [_ev("a0", "a0r", "R", 0, None, "anchor"), _ev("a1", "a1r", "R", 140, None, "anchor")]
+    for i, (job, ctype) in enumerate([("tA", "X"), ("tB", "X"), ("tC", "Y")]):
+        at = 117 if keep[i] else 20 + i
+        a += [_ev(job, job + "r", "R", at, None), _ev(job, job + "c", ctype, at + 1, job + "r")]
+    b = [_ev("b0", "b0r", "R", 100, None, "anchor"), _ev("b1", "b1r", "R", 130, None, "anchor"),
+         _ev("tD", "tDr", "R", 112, None), _ev("tD", "tDc", "X", 113, "tDr"),
+         _ev("tE", "tEr", "R", 115, None), _ev("tE", "tEc", "Z", 116, "tEr")]
+    return a, b
+
+
+def history_run(holder: Any, evs: list[Any]) -> Any:
+    V.forget_temp_table()
+    try:
+        with holder:
+            for e in evs:
+                holder.save_data(e.model_copy())
+        holder.remove_inconsistent_jobs()
+        holder.remove_jobs_outside_of_time_window()
+        holder.update_job_names_by_root_span()
+        return holder.find_unique_graphs()
+    except Exception as e:  # noqa
+        return f"run raised {type(e).__name__}: {str(e)[:200]}"
+    finally:
+        V.forget_temp_table()
+
+
+def history_model(c: dict[str, Any], keep: list[Any]) -> Optional[str]:
+    a, b = history_data(keep)
+    store = M.Store()
+    for k, evs in enumerate((a, b)):
+        store.drop_temporaries()
+        got = history_run(V.model_holder(store, c["batch"], 1), evs)
+        rows = [dict(r) for r in store.tables["nodes"]]
+        msg = untraced(lambda: judge(rows, got))
+        if msg:
+            return f"run {k + 1}: {msg}"
+    return None
+
+
+def history_real(c: dict[str, Any], keep: list[int]) -> Optional[str]:
+    import os
+    import tempfile
+    a, b = history_data(keep)
+    tmp = tempfile.mkdtemp(prefix="c09_")
+    try:
+        for k, evs in enumerate((a, b)):
+            h = V.real_holder(c["batch"], 1, f"sqlite:///{tmp}/db.sqlite")
+            got = history_run(h, evs)
+            rows = [dict(zip(M.NODE_COLS[1:], n)) for n in V.dump_real(h)["nodes"]]
+            h.session.close()
+            h.engine.dispose()
+            msg = judge(rows, got)
+            if msg:
+                return f"run {k + 1}: {msg}"
+    finally:
+        for f in os.listdir(tmp):
+            os.unlink(os.path.join(tmp, f))
+        os.rmdir(tmp)
+    return None
+
+
+def history(k0: bool, k1: bool, k2: bool) -> bool:
+    """
+    pre: k0 == CFG.get("k0", k0) and k1 == CFG.get("k1", k1)
+    post: _
+    """
+    path_tick()
+    return history_model(CFG, [k0, k1, k2]) is None
+
+
 def rgs_ok(xs: list[int], k: int) -> bool:
     mx = -1
     for x in xs:
@@ -167,6 +252,12 @@ def twin(r1: int, r2: int, r3: int, r4: int, l1: int, l2: int, l3: int, l4: int,
 
 
 def replay(args: list[Any], c: dict[str, Any]) -> dict[str, Any]:
+    if c.get("kind") == "history":
+        keep = [bool(x) for x in args]
+        msg = history_real(c, keep)
+        return {"violates": msg is not None, "sig": "unique-graphs-history",
+                "what": (msg or "both runs select one stored trace per shape") + f" [first-run traces inside the second window: {keep}, batch {c['batch']}]",
+                "model_says": history_model(c, keep)}
     a = [int(x) for x in args]
     n = c["n"]
     tr, lab, star = ([0] + a[0:4])[:n], ([0] + a[4:8])[:n], ([0, 0] + a[8:11])[:n]
